@@ -26,6 +26,8 @@ var BranchTuples = []model.Branch{
 	{MidConn: "|", MidCont: "|  ", LastConn: "`", LastCont: "|"},   // a connector that also occurs INSIDE the continuation strings
 	{MidConn: "%d", MidCont: "%s ", LastConn: "%", LastCont: "%%"}, // format verbs: branch strings are data, never a format
 	{MidConn: "a", MidCont: "ab", LastConn: "abc", LastCont: "abcd"}, // every string a prefix of the next
+	{MidConn: "+-", MidCont: "| ", LastConn: "+---", LastCont: "  "}, // the last-node connector LONGER (in bytes) than the intermediate one
+	{MidConn: "", MidCont: "x", LastConn: "└└", LastCont: ""},        // an empty intermediate connector next to a multi-byte last one
 }
 
 // allBranches lists every index of BranchTuples.
